@@ -5,6 +5,7 @@ package main
 // small loop-free regions by executing both arms under guards.
 
 import (
+	"os"
 	"sync"
 	"fmt"
 	"go/constant"
@@ -550,6 +551,9 @@ func (w *Worker) decide(c *Term) bool {
 		return c.Val != 0
 	}
 	if v, ok := w.lookupKnown(c); ok {
+		if debugSites != nil {
+			fmt.Fprintf(os.Stderr, "decide: known=%v at %s: %s\n", v, w.curPos(), c)
+		}
 		return v
 	}
 	if w.inMerge > 0 {
@@ -777,10 +781,16 @@ func (w *Worker) oblige(c *Term, kind, id, pos string) {
 		return
 	}
 	if v, ok := w.lookupKnown(c); ok && v {
+		if kind == "assert" {
+			w.job.noteAssert(id, false)
+		}
 		return
 	}
 	if kind == "assert" {
 		w.job.noteAssert(id, true)
+	}
+	if debugSites != nil && kind == "assert" {
+		fmt.Fprintf(os.Stderr, "ASSERT %s guards=%d inMerge=%d pc=%d trace=%s cond=%s\n", id, len(w.guards), w.inMerge, len(w.pc), traceStr(w.trace), c)
 	}
 	w.pending = append(w.pending, obl{c, kind, id, pos})
 	if c.IsFalse() && w.inMerge == 0 {
@@ -879,6 +889,17 @@ func (w *Worker) flush() {
 }
 
 func (w *Worker) reportViolation(o obl, m Model) {
+	if debugSites != nil {
+		fmt.Fprintf(os.Stderr, "VIOLATION %s %s cond=%s\n", o.kind, o.id, o.cond)
+		for i, p := range w.pc {
+			fmt.Fprintf(os.Stderr, "  pc[%d] eval=%d %s\n", i, m.Eval(p), p)
+		}
+		for _, n := range w.nondet {
+			if n.t != nil {
+				fmt.Fprintf(os.Stderr, "  %s = %d\n", n.t, m.Eval(n.t))
+			}
+		}
+	}
 	vec, kinds := w.vectorFrom(m)
 	v := Violation{Kind: o.kind, ID: o.id, Pos: o.pos, Vector: vec, Kinds: kinds, Trace: append([]dec{}, w.trace...)}
 	w.viols = append(w.viols, v)
@@ -1092,6 +1113,9 @@ func (w *Worker) call(f *FuncV, args []Value, site ssa.CallInstruction) Value {
 	fn := f.fn
 	name := fn.String()
 	if h, ok := intrinsics[name]; ok {
+		if debugSites != nil && strings.HasPrefix(name, zz) {
+			fmt.Fprintf(os.Stderr, "CALL %s inMerge=%d guards=%d trace=%s\n", name[len(zz):], w.inMerge, len(w.guards), traceStr(w.trace))
+		}
 		return h(w, fn, args, site)
 	}
 	if fn.Origin() != nil {
